@@ -53,7 +53,13 @@ pub fn observe(ctx: &Ctx, bytes: &[u8]) -> Obs {
   let o1 = run(&["torrent", "show", "--input", "t.torrent"], None);
   let o2 = run(&["torrent", "show", "--json", "--input", "t.torrent"], None);
   let o3 = run(&["torrent", "show", "--input", "-"], Some(bytes));
-  let o4 = run(&["torrent", "link", "--input", "t.torrent"], None);
+  // the link is made from the path, from standard input, or with a file selection: the topic is the same
+  let o4 = match crate::report::fnv(bytes) % 4 {
+    0 => run(&["torrent", "link", "--input", "-"], Some(bytes)),
+    1 => run(&["torrent", "link", "--input", "t.torrent", "--select-only", "0"], None),
+    2 => run(&["torrent", "link", "--input", "t.torrent", "--peer", "1.2.3.4:5"], None),
+    _ => run(&["torrent", "link", "--input", "t.torrent"], None),
+  };
   let show = if o1.ok() { find_hex40(&o1.stdout_s(), "info hash\t") } else { None };
   let show_json = if o2.ok() {
     serde_json::from_str::<serde_json::Value>(&o2.stdout_s()).ok().and_then(|v| v.get("info_hash").and_then(|h| h.as_str()).map(|s| s.to_string()))
@@ -165,10 +171,11 @@ pub fn run(ctx: &Ctx) -> Report {
       sb.mkdir("in");
     }
     let mut args: Vec<String> = ["torrent", "create", "--input", "in", "--output", "o.torrent", "--link", "--show"].iter().map(|s| s.to_string()).collect();
-    for (flag, val) in [("--comment", "c c"), ("--source", "src"), ("--announce", "http://t.example/a"), ("--name", "n&m")] {
+    // (some values look like the structure around them: `4:info` in a comment, `nodes` as a host name, a control character in the name)
+    for (flag, vals) in [("--comment", ["c c", "4:info", "d4:infod4:name1:xee"]), ("--source", ["src", "e5:nodes", "x\ty"]), ("--announce", ["http://t.example/a", "http://x.example/4:info", "http://t.example/a"]), ("--name", ["n&m", "a\u{1b}[31mb", "4:info"])] {
       if rng.chance(1, 2) {
         args.push(flag.into());
-        args.push(val.into());
+        args.push(rng.pick(&vals).to_string());
       }
     }
     if rng.chance(1, 2) {
@@ -182,7 +189,7 @@ pub fn run(ctx: &Ctx) -> Report {
       args.extend(["--update-url".to_string(), "https://example.com/feed".into()]);
     }
     if rng.chance(1, 4) {
-      args.extend(["--node".to_string(), "router.example.com:6881".into()]);
+      args.extend(["--node".to_string(), rng.pick(&["router.example.com:6881", "nodes:6881", "info:1"]).to_string()]);
     }
     if rng.chance(1, 3) {
       args.push("--private".into());
@@ -208,6 +215,24 @@ pub fn run(ctx: &Ctx) -> Report {
     let later_h = find_hex40(&later.stdout_s(), "info hash\t");
     if from_link != span || from_show != span || later_h != span || span.is_none() {
       report.fail("property", "create-link-show-infohash", case, format!("create --link {from_link:?}, create --show {from_show:?}, later show {later_h:?}, SHA-1 of stored span {span:?}"));
+    }
+  }
+  // `--dry-run` reports the hash of what a real run writes; and a tree of a thousand and one files is listed whole
+  {
+    let sb = Sandbox::new(&ctx.work, "c04d");
+    for i in 0..1001 {
+      sb.write(&format!("in/f{i:04}"), &[(i % 251) as u8; 3]);
+    }
+    let dry = Cmd::new(&ctx.imdl, &["torrent", "create", "--input", "in", "--output", "o.torrent", "--link", "--show", "--dry-run", "--no-creation-date"]).cwd(&sb.root).run();
+    let real = Cmd::new(&ctx.imdl, &["torrent", "create", "--input", "in", "--output", "o.torrent", "--link", "--show", "--no-creation-date"]).cwd(&sb.root).run();
+    let written = std::fs::read(sb.path("o.torrent")).unwrap_or_default();
+    let span = bencode::find_span(&written, b"info").map(|(a, b)| sha1hex(&written[a..b]));
+    let hs = [find_hex40(&dry.stdout_s(), "urn:btih:"), find_hex40(&dry.stdout_s(), "info hash\t"), find_hex40(&real.stdout_s(), "urn:btih:"), find_hex40(&real.stdout_s(), "info hash\t")];
+    let case = json!({"create": "1001 files, --dry-run and real run, --link --show"});
+    report.case(Some(fnv(case.to_string().as_bytes())));
+    report.hit("create --dry-run --link --show");
+    if span.is_none() || hs.iter().any(|h| *h != span) {
+      report.fail("property", "create-link-show-infohash", case, format!("dry-run link/show and real link/show report {hs:?}; SHA-1 of the stored span is {span:?}"));
     }
   }
   report
